@@ -99,9 +99,9 @@ SampleBegin ==
 
 \* one operator of the list: fold the sample into every runtime tensor of the operator not yet folded this sample
 Fold(d, ts) == [t \in Tensors |-> IF t \in ts THEN (IF d[t] = Absent THEN <<s>> ELSE Append(d[t], s)) ELSE d[t]]
-OpStep ==
-  /\ pc = "session" /\ s # 0 /\ opi <= NOpsNow
-  /\ LET o == OpAt(opi)
+OpStepAt(k) ==
+  /\ pc = "session" /\ s # 0 /\ k <= NOpsNow
+  /\ LET o == OpAt(k)
          ts == IF o.on THEN (IF "once" \in Fixes THEN o.tens \ updated ELSE o.tens) ELSE {}
      IN /\ cur' = Fold(cur, ts)
         /\ updated' = updated \cup ts
@@ -110,8 +110,9 @@ OpStep ==
         /\ results' = IF curAlias = 0 THEN results
                        ELSE IF "shallow" \in Fixes THEN [results EXCEPT ![curAlias] = Fold(@, {t \in ts : cur[t] = <<>> /\ @[t] = <<>>})]
                        ELSE [results EXCEPT ![curAlias] = Fold(@, ts)]
-  /\ opi' = opi + 1
+  /\ opi' = k + 1
   /\ UNCHANGED <<sel, selIn, selOut, snap, base, curAlias, nextS, sessEnd, sig, s, ioCopies, pc>>
+OpStep == OpStepAt(opi)
 
 SampleEnd ==
   /\ pc = "session" /\ s # 0 /\ opi > NOpsNow
